@@ -548,6 +548,51 @@ impl Gen {
         self.plan.push_back(Action::Adopt(dbase)); // node bind+1
         self.plan.push_back(Action::Observe(bind + 1)); // obase+2
         self.plan.push_back(Action::Stabilise);
+        if same_value && rng.chance(1, 2) {
+            // variant (defect #24): a chain on the kept node stays observed; the bind goes
+            // unobserved and its input grows taller; then a *new* node over (chain, bind, z), chain
+            // first, is observed: linking the bind lifts the kept node, the chain and, through
+            // the chain, the new node while it is still being linked
+            self.plan.push_back(Action::NewVar(Val::I(rng.range(0, 4)))); // q: node bind+2, var vbase+3
+            self.plan.push_back(Action::Create(Kind::Map(F1::Ident, bind + 1))); // bind+3
+            let mut top = bind + 3;
+            let mut n = bind + 4;
+            for _ in 0..rng.below(3) {
+                self.plan.push_back(Action::Create(Kind::Map(F1::Lin(1, 1), top)));
+                top = n;
+                n += 1;
+            }
+            self.plan.push_back(Action::Create(Kind::Map2(F2::Add, top, bind + 2)));
+            let c1 = n;
+            n += 1;
+            self.plan.push_back(Action::Observe(c1)); // obase+3
+            self.plan.push_back(Action::Stabilise);
+            self.plan.push_back(Action::DropObs(obase + 1));
+            if rng.chance(1, 2) {
+                self.plan.push_back(Action::DropObs(obase + 2));
+            }
+            self.plan.push_back(Action::Stabilise);
+            self.plan.push_back(Action::Write(vbase, WriteOp::Set(1)));
+            self.plan.push_back(Action::Stabilise);
+            self.plan.push_back(Action::NewVar(Val::I(rng.range(0, 4)))); // z: node n, var vbase+4
+            let z = n;
+            n += 1;
+            let inputs = match rng.below(3) {
+                0 => vec![c1, bind, z],
+                1 => vec![c1, z, bind],
+                _ => vec![bind, c1, z],
+            };
+            self.plan.push_back(Action::Create(Kind::MapN(vec![1, 1, 1], inputs, rng.chance(1, 2))));
+            self.plan.push_back(Action::Observe(n)); // obase+4
+            self.plan.push_back(Action::Stabilise);
+            self.plan.push_back(Action::Write(vbase + 4, WriteOp::UpdateAdd(1)));
+            self.plan.push_back(Action::Write(vbase + 3, WriteOp::UpdateAdd(1)));
+            self.plan.push_back(Action::Stabilise);
+            self.plan.push_back(Action::Write(vbase + 1, WriteOp::UpdateAdd(1)));
+            self.plan.push_back(Action::Write(vbase + 2, WriteOp::UpdateAdd(1)));
+            self.plan.push_back(Action::Stabilise);
+            return;
+        }
         self.plan.push_back(Action::DropObs(obase + 1));
         self.plan.push_back(Action::Stabilise);
         self.plan.push_back(Action::Write(vbase, WriteOp::Set(1)));
